@@ -171,4 +171,22 @@ Section Guarded.
     - intros h Hin. pose proof (handler_input_lemma st Hr s h Hin) as H.
       destruct (h_push h); [exact H|]. destruct H as (c & A & ->). exists c. auto.
   Qed.
+
+  (* ---- when nobody is inside WriteMessage the whole queue decodes, frame by frame, to
+          exactly the messages written and not yet read, in order (C05's stream theorem) ---- *)
+  Theorem queue_decodes_lemma st : reach cfg st -> forall s,
+    e_writers (ep_of st s) = [] ->
+    exists whole : list frame_rec,
+      queue st s = concat (map fr_bytes whole) /\
+      raw_decode_all (S (length whole)) (cf_reg cfg) (cf_lim cfg) (queue st s)
+      = (map (fun '(ids, m, f) => (m, ids, blen f)) whole, Ok tt).
+  Proof.
+    intros Hr s Hw.
+    destruct (frames_atomic_lemma st Hr s) as (whole & partial & Wf & Eq & _ & [[-> _]|(x & rest & E & _)]);
+      [|rewrite Hw in E; discriminate].
+    exists whole. rewrite app_nil_r in Eq. split; [exact Eq|]. rewrite Eq.
+    apply (raw_stream_lemma (cf_reg cfg) (cf_lim cfg) Hinv whole (S (length whole))); [|apply Nat.lt_succ_diag_r].
+    apply Forall_forall. intros [[ids m] f] Hin. rewrite Forall_forall in Wf.
+    exact (wf_frame_raw cfg _ (Wf _ Hin)).
+  Qed.
 End Guarded.
